@@ -1,5 +1,5 @@
 """C10 - every call to an exported object gets exactly one correctly addressed reply."""
-from ..engine import Spec, assume, check, reached, HarnessError, notrace
+from ..engine import Spec, assume, check, reached, HarnessError, notrace, decode_choice, encode_choice
 from ..runner import Ob
 
 PROPERTY = 'C10'
@@ -26,7 +26,7 @@ STUBS = ['recording connection object (sendMessage)']
 PATHS = ['/obj', '/nope']
 IFACES = [None, 'org.t.I1', 'org.t.I2', 'org.t.I0', 'org.t.Unknown', 'org.freedesktop.DBus.Properties']
 MEMBERS = ['Echo', 'Same', 'Pair', 'Nothing', 'Later', 'LaterFail', 'Fail', 'FailNamed', 'FailBadName', 'Who', 'BadRet',
-           'Inherited', 'Missing']
+           'Inherited', 'Missing', 'List1', 'List2', 'Struct1']
 SIGS = [None, 'i', 's']
 SENDER = ':1.9'
 
@@ -34,8 +34,8 @@ SENDER = ':1.9'
 DECL = {
     'org.t.I1': {'Echo': ('i', 'i'), 'Same': ('i', 'i'), 'Pair': ('', 'ii'), 'Nothing': ('', ''), 'Later': ('i', 'i'),
                  'LaterFail': ('i', 'i'), 'Fail': ('i', 'i'), 'FailNamed': ('i', 'i'), 'FailBadName': ('i', 'i'),
-                 'Who': ('', 's'), 'BadRet': ('', 'i')},
-    'org.t.I2': {'Same': ('s', 's')},
+                 'Who': ('', 's'), 'BadRet': ('', 'i'), 'List1': ('i', 'ai'), 'List2': ('i', 'ai'), 'Struct1': ('i', '(i)')},
+    'org.t.I2': {'Same': ('s', 's'), 'Who': ('', 's')},
     'org.t.I0': {'Inherited': ('', 's')},
     'org.freedesktop.DBus.Properties': {'Get': ('ss', 'v'), 'Set': ('ssv', ''), 'GetAll': ('s', 'a{sv}')},
 }
@@ -49,6 +49,8 @@ def obligations(tier):
             obs.append(Ob('call:%s:%s' % (PATHS[pi], IFACES[ii]), 'call', {'pi': pi, 'ii': ii}, timeout=600,
                           path_timeout=30, twin=True, functions=FUNCS,
                           bounds='member, signature selectors; serial u32; argument int32; expectReply symbolic'))
+    obs.append(Ob('seq:two-calls', 'seq', {}, timeout=900, path_timeout=60, twin=True, functions=FUNCS,
+                  bounds='two consecutive calls on one exported instance: (interface, member) x (interface, member) selectors'))
     obs.append(Ob('builtin:ping', 'ping', {}, timeout=60, twin=True, functions=FUNCS[:1],
                   bounds='serial u32, expectReply symbolic'))
     return obs
@@ -64,7 +66,7 @@ def _mk_world():
     from txdbus.interface import DBusInterface, Method
     from twisted.internet import defer
     I1 = DBusInterface('org.t.I1', *[Method(m, a, r) for m, (a, r) in DECL['org.t.I1'].items()], noRegister=True)
-    I2 = DBusInterface('org.t.I2', Method('Same', 's', 's'), noRegister=True)
+    I2 = DBusInterface('org.t.I2', Method('Same', 's', 's'), Method('Who', '', 's'), noRegister=True)
     I0 = DBusInterface('org.t.I0', Method('Inherited', '', 's'), noRegister=True)
 
     class NamedErr(Exception):
@@ -133,6 +135,7 @@ def _mk_world():
             self.log.append(('FailBadName', x))
             raise BadNameErr('bad name failure')
 
+        @objects.dbusMethod('org.t.I1', 'Who')        # shared member name: both bindings name their interface
         def dbus_Who(self, dbusCaller=None):
             self.log.append(('Who', dbusCaller))
             return dbusCaller
@@ -140,6 +143,23 @@ def _mk_world():
         def dbus_BadRet(self):
             self.log.append(('BadRet',))
             return 'not an int'
+
+        @objects.dbusMethod('org.t.I2', 'Who')
+        def who_two(self):
+            self.log.append(('Who2',))
+            return 'two'
+
+        def dbus_List1(self, x):
+            self.log.append(('List1', x))
+            return [x]
+
+        def dbus_List2(self, x):
+            self.log.append(('List2', x))
+            return [x, x]
+
+        def dbus_Struct1(self, x):
+            self.log.append(('Struct1', x))
+            return (x,)
 
     class Conn:
         def __init__(self):
@@ -155,11 +175,22 @@ def _mk_world():
     h.exportObject(o)
     for cache in o._iterIFaceCaches():
         pass
-    for name in ('Echo', 'Pair', 'Nothing', 'Later', 'LaterFail', 'Fail', 'FailNamed', 'FailBadName', 'Who', 'BadRet',
-                 'Inherited'):
-        o._set_method_flags(getattr(o, 'dbus_' + name))
-    o._set_method_flags(o.same_one)
-    o._set_method_flags(o.same_two)
+    # warm the lazily set per-method flags through the public entry point, one concrete call per member
+    from txdbus import message as _m
+    for iface_name, members in DECL.items():
+        if not iface_name.startswith('org.t.'):
+            continue
+        for member, (sin, sout) in members.items():
+            _m.DBusMessage._nextSerial = 3
+            body = {'': None, 'i': [1], 's': ['w']}[sin]
+            call = _m.MethodCallMessage('/obj', member, interface=iface_name, signature=sin or None, body=body)
+            call.sender = ':1.1'
+            h.handleMethodCallMessage(call)
+    for kind, d, val in list(o.later):
+        try:
+            d.callback(val)
+        except Exception:
+            pass
     _world.update(Obj=Obj, Conn=Conn, NamedErr=NamedErr, BadNameErr=BadNameErr)
     return _world
 
@@ -211,6 +242,63 @@ def build(family, p):
             reached()
         h.__name__ = 'ping'
         return Spec(h, [('S', int), ('er', bool)], witnesses=[(1, True), (2 ** 32 - 1, False)])
+
+    if family == 'seq':
+        SEQ_IF = [None, 'org.t.I1', 'org.t.I2']
+        SEQ_MEM = ['Who', 'Same', 'Echo', 'List1', 'Struct1', 'Pair']
+        sizes = [len(SEQ_IF), len(SEQ_MEM), len(SEQ_IF), len(SEQ_MEM)]
+
+        def h(code):
+            sel = decode_choice(code, sizes)
+            with notrace():
+                run(sel)
+            reached()
+
+        def run(sel):
+            conn = W['Conn']()
+            handler = objects.DBusObjectHandler(conn)
+            obj = W['Obj']('/obj')
+            handler.exportObject(obj)
+            conn.sent[:] = []
+            for k in (0, 1):
+                iface, member = SEQ_IF[sel[2 * k]], SEQ_MEM[sel[2 * k + 1]]
+                verdict0, found0 = ref_dispatch('/obj', iface, member, None)
+                sig = None
+                if found0 is not None and member in DECL.get(found0, {}):
+                    sig = DECL[found0][member][0] or None
+                body = {None: None, 'i': [5 + k], 's': ['arg']}[sig]
+                message.DBusMessage._nextSerial = 50 + k
+                call = message.MethodCallMessage('/obj', member, interface=iface, signature=sig, body=body)
+                call.sender = SENDER
+                call._marshal(False)
+                msg = message.parseMessage(call.rawMessage, [])
+                message.DBusMessage._nextSerial = 70 + k
+                obj.log[:] = []
+                n0 = len(conn.sent)
+                handler.handleMethodCallMessage(msg)
+                replies = conn.sent[n0:]
+                check(len(replies) == 1 and replies[0].reply_serial == 50 + k and replies[0].destination == SENDER,
+                      'each call must get exactly one correctly addressed reply')
+                verdict, found = ref_dispatch('/obj', iface, member, sig)
+                r = replies[0]
+                if verdict != 'run':
+                    check(obj.log == [] and r._messageType == 3 and r.error_name == 'org.freedesktop.DBus.Error.' + verdict,
+                          'a call that does not match must be refused without running user code')
+                    continue
+                x = 5 + k
+                want_log = {'Who': ('Who', SENDER) if found == 'org.t.I1' else ('Who2',),
+                            'Same': ('Same1', x) if found == 'org.t.I1' else ('Same2', 'arg'), 'Echo': ('Echo', x),
+                            'List1': ('List1', x), 'Struct1': ('Struct1', x), 'Pair': ('Pair',)}[member]
+                check(obj.log == [want_log], 'the implementation bound to the addressed interface must run once with its arguments')
+                want_body = {'Who': [SENDER] if found == 'org.t.I1' else ['two'],
+                             'Same': [x] if found == 'org.t.I1' else ['arg!'], 'Echo': [x], 'List1': [[x]],
+                             'Struct1': [[x]], 'Pair': [1, 2]}[member]
+                check(r._messageType == 2 and (r.signature or '') == DECL[found][member][1], 'reply kind / signature wrong')
+                pr = message.parseMessage(r.rawMessage, [])
+                check(pr.body == want_body, 'returned value differs from what the implementation returned')
+        h.__name__ = 'seq'
+        return Spec(h, [('code', int)], witnesses=[(encode_choice(w, sizes),) for w in
+                                                  ([1, 0, 2, 0], [2, 0, 1, 0], [0, 1, 2, 1], [1, 3, 1, 4], [0, 0, 0, 0])])
 
     path, iface = PATHS[p['pi']], IFACES[p['ii']]
 
@@ -264,12 +352,14 @@ def build(family, p):
             exp_tag = member
             if member == 'Same':
                 exp_tag = 'Same1' if found == 'org.t.I1' else 'Same2'
+            if member == 'Who':
+                exp_tag = 'Who' if found == 'org.t.I1' else 'Who2'
             check(tag == exp_tag, 'the implementation bound to another interface/member ran')
             if sig == 'i':
                 check(obj.log[0][1] == x, 'implementation received a different argument')
             elif sig == 's':
                 check(obj.log[0][1] == 'arg', 'implementation received a different argument')
-            if member == 'Who':
+            if member == 'Who' and found == 'org.t.I1':
                 check(obj.log[0][1] == SENDER, 'dbusCaller is not the caller\'s unique name')
             if not er:
                 check(len(replies) == 0, 'a no-reply call that was dispatched must not be answered')
@@ -278,7 +368,8 @@ def build(family, p):
                 r = replies[0]
                 sigout = DECL[found][member][1]
                 ok_body = {'Echo': [x], 'Same': [x] if found == 'org.t.I1' else ['arg!'], 'Pair': [1, 2], 'Nothing': None,
-                           'Later': [x], 'Who': [SENDER], 'Inherited': ['base']}
+                           'Later': [x], 'Who': [SENDER] if found == 'org.t.I1' else ['two'], 'Inherited': ['base'],
+                           'List1': [[x]], 'List2': [[x, x]], 'Struct1': [[x]]}
                 errs = {'Fail': ('org.txdbus.PythonException.ValueError', 'plain failure'),
                         'FailNamed': ('org.t.Err.Named', 'named failure'),
                         'FailBadName': ('org.txdbus.InvalidErrorName', None),
